@@ -50,7 +50,11 @@ class CancellableAction(Future):
 
         try:
             with kiwipy.capture_exceptions(self):
-                self.set_result(self._action(*args, **kwargs))
+                result = self._action(*args, **kwargs)
+                # The action may have been cancelled while it was running (superseded by a request made from a callback
+                # it triggered): the outcome can no longer be reported then, which is not an error of the action
+                if not self.cancelled():
+                    self.set_result(result)
         finally:
             self._action = None  # type: ignore
 
